@@ -168,7 +168,7 @@ func init() {
 func init() {
 	addProp(&propDef{
 		ID: "C16", Check: "implicit", Level: "exploration",
-		Rule: "every declaration set of the bound (0-3 options among flag / valued / multi-valued / env-backed, 0-3 arguments each single or multi-valued, with and without a version flag) built twice - Spec left empty, and the explicit spec `[OPTIONS] A B ..` assembled by the oracle from the documentation's rule - x every argv up to the length bound over the set's own alphabet: acceptance, every bound value, every SetByUser flag and the error text must be identical, and the usage line printed by the implicit variant on rejection must show the explicit spec; non-trivial = sets declaring at least two items",
+		Rule: "every declaration set of the bound (0-3 options among flag / valued / multi-valued / env-backed, 0-3 arguments each single or multi-valued, with and without a version flag) built twice - Spec left empty, and the explicit spec `[OPTIONS] A B ..` assembled by the oracle from the documentation's rule - x every argv up to the length bound over the set's own alphabet, with the declarations on the application and (argv length <= 3) on a lazily initialised sub-command: acceptance, every bound value, every SetByUser flag and the error text must be identical, and the usage line printed by the implicit variant on rejection must show the explicit spec; non-trivial = sets declaring at least two items",
 		Assumptions: []string{"differential: the explicit-spec variant of the same library is the oracle; what that spec means is C01's business"},
 	})
 }
